@@ -59,7 +59,7 @@ def _api_func(rule, ureg):
 def tasks(tier, seed):
     t = [{"sub": "bundled", "shard": i} for i in range(2)]
     t += [{"sub": "generated", "shard": i} for i in range(4)]
-    t += [{"sub": "redef", "shard": i} for i in range(2)]
+    t += [{"sub": "redef", "shard": i} for i in range(2)] + [{"sub": "params", "shard": 0}]
     return t
 
 
@@ -592,9 +592,136 @@ def run_redef(task, tier, seed, col):
     hyp_search(col, strat, lambda c: case_redef(c, col), max_examples=200 if tier == "quick" else 3000, seed=seed * 193 + task["shard"])
 
 
+# ------------------------------------------------------------------------------------- parameter resolution, parameter by parameter
+
+_PARAM_REG = []
+
+
+def _param_registry():
+    import pint
+
+    if not _PARAM_REG:
+        ureg = env.fresh("Fraction")
+        ureg.add_context(pint.Context.from_lines(["@context(p=5) pouter", "    [mass] -> [time]: value * p * second / kilogram"], non_int_type=Fraction))
+        ureg.add_context(pint.Context.from_lines(["@context(p=2, q=3) pinner = pinn", "    [length] -> [time]: value * p * q * second / meter"], non_int_type=Fraction))
+        _PARAM_REG.append(ureg)
+    return _PARAM_REG[0]
+
+
+def case_params(case, col=None):
+    """each parameter on its own: keyword of the call, else the enclosing active context, else the declared default"""
+    ureg = _param_registry()
+    outer, how, kw = case["outer"], case["how"], {k: Fraction(v) for k, v in case["kw"].items()}
+    if col is not None:
+        col.case(("pa", str(case)), bool(kw) and outer != "off", sample=case, cls=f"{how}:{'+'.join(sorted(kw)) or 'none'}:{outer}")
+    p_enclosing = None if outer == "off" else (Fraction(5) if outer == "default" else Fraction(outer))
+    p_eff = kw.get("p", p_enclosing if p_enclosing is not None else Fraction(2))
+    q_eff = kw.get("q", Fraction(3))
+    want = p_eff * q_eff
+    q = ureg.Quantity(Fraction(1), "meter")
+    try:
+        if outer != "off":
+            ureg.enable_contexts("pouter", **({} if outer == "default" else {"p": Fraction(outer)}))
+        if how == "to":
+            s_, r = attempt(lambda: q.to("second", "pinner", **kw))
+        elif how == "to_alias":
+            s_, r = attempt(lambda: q.to("second", "pinn", **kw))
+        elif how == "ito":
+            def f():
+                x = ureg.Quantity(Fraction(1), "meter")
+                x.ito("second", "pinner", **kw)
+                return x
+            s_, r = attempt(f)
+        elif how == "with":
+            def f():
+                with ureg.context("pinner", **kw):
+                    return q.to("second")
+            s_, r = attempt(f)
+        else:
+            def f():
+                ureg.enable_contexts("pinner", **kw)
+                try:
+                    return q.to("second")
+                finally:
+                    ureg.disable_contexts(1)
+            s_, r = attempt(f)
+    finally:
+        ureg.disable_contexts()
+    if s_ == "err":
+        raise Violation(f"parameter_resolution_raised:{exc_class(r)}", f"{case}: {r!r}")
+    if Fraction(r.magnitude) != want:
+        raise Violation(f"parameter_not_resolved_per_parameter:{how}", f"{case}: 1 m -> {r.magnitude} s, expected p*q = {p_eff}*{q_eff} = {want}")
+    # the enclosing context still uses its own value
+    if outer != "off":
+        try:
+            ureg.enable_contexts("pouter", **({} if outer == "default" else {"p": Fraction(outer)}))
+            m = ureg.Quantity(Fraction(1), "kilogram").to("second").magnitude
+        finally:
+            ureg.disable_contexts()
+        if Fraction(m) != p_enclosing:
+            raise Violation("enclosing_context_parameter_changed", f"{case}: 1 kg -> {m} s, expected {p_enclosing}")
+
+
+# physical anchors for the bundled contexts, written from the defining relations (lambda * nu = c / n, E = h nu, sigma = 1 / lambda, E = k T,
+# E = m c^2, n = m / M): an error in the bundled rules is otherwise invisible to an oracle that reads the same rules
+C_ = Fraction(299792458)
+H_ = Fraction(662607015, 10 ** 42)
+K_ = Fraction(1380649, 10 ** 29)
+ANCHORS = [
+    ("sp", {}, (500, "nanometer"), "terahertz", C_ / Fraction(500, 10 ** 9) / 10 ** 12),
+    ("sp", {"n": Fraction(3, 2)}, (500, "nanometer"), "terahertz", C_ / Fraction(3, 2) / Fraction(500, 10 ** 9) / 10 ** 12),
+    ("sp", {"n": Fraction(3, 2)}, (1000, "1/centimeter"), "micrometer", Fraction(10)),
+    ("sp", {}, (1000, "1/centimeter"), "micrometer", Fraction(10)),
+    ("sp", {"n": Fraction(3, 2)}, (10, "micrometer"), "1/centimeter", Fraction(1000)),
+    ("sp", {}, (1, "terahertz"), "joule", H_ * 10 ** 12),
+    ("sp", {"n": Fraction(2)}, (1, "terahertz"), "joule", H_ * 10 ** 12),
+    ("sp", {"n": Fraction(2)}, (100, "1/centimeter"), "hertz", C_ / 2 * 10000),
+    ("sp", {}, (100, "1/centimeter"), "hertz", C_ * 10000),
+    ("boltzmann", {}, (300, "kelvin"), "joule", K_ * 300),
+    ("energy", {}, (2, "gram"), "joule", Fraction(2, 1000) * C_ * C_),
+]
+
+
+def case_anchor(case, col=None):
+    ureg = env.ureg("Fraction")
+    name, kw, (x, ua), ub, want = ANCHORS[case["i"]]
+    if col is not None:
+        col.case(("an", case["i"], case["how"]), True, sample={"context": name, "kw": {k: str(v) for k, v in kw.items()}, "from": [x, ua], "to": ub}, cls=name)
+    q = ureg.Quantity(Fraction(x), ua)
+    if case["how"] == "to":
+        s_, r = attempt(lambda: q.to(ub, name, **kw))
+    else:
+        def f():
+            with ureg.context(name, **kw):
+                return q.to(ub)
+        s_, r = attempt(f)
+    if s_ == "err":
+        raise Violation(f"bundled_context_anchor_raised:{name}:{exc_class(r)}", f"Q({x},{ua}).to({ub}, {name}, {kw}): {r!r}")
+    got = r.magnitude
+    if abs(float(got) - float(want)) > 1e-12 * abs(float(want)):
+        raise Violation(f"bundled_context_differs_from_physics:{name}", f"Q({x},{ua}).to({ub}) in {name} {kw} = {float(got)!r}, the defining relation gives {float(want)!r}")
+
+
+def run_params(task, tier, seed, col):
+    for i in range(len(ANCHORS)):
+        for how in ("to", "with"):
+            col.run_case(lambda c: case_anchor(c, col), {"i": i, "how": how})
+    for outer in ("off", "default", 7):
+        for how in ("to", "to_alias", "ito", "with", "enable"):
+            for kw in ({}, {"p": 11}, {"q": 10}, {"p": 11, "q": 10}):
+                col.run_case(lambda c: case_params(c, col), {"outer": outer, "how": how, "kw": kw})
+    col.exhaustive = True
+
+
 def run_task(task, tier, seed, col):
+    if task["sub"] == "params":
+        return run_params(task, tier, seed, col)
     {"bundled": run_bundled, "generated": run_generated, "redef": run_redef}[task["sub"]](task, tier, seed, col)
 
 
 def replay(sub, case):
+    if sub == "params" and "i" in case:
+        return case_anchor(case)
+    if sub == "params":
+        return case_params(case)
     return {"bundled": case_bundled, "generated": case_generated, "redef": case_redef}[sub](case)
